@@ -92,6 +92,27 @@ def fhex(x):
 
 
 # --------------------------------------------------------------------------
+# scratch directories (run private, removed when the run ends)
+# --------------------------------------------------------------------------
+class Scratch:
+    _n = 0
+
+    def __init__(self, tag="run"):
+        import tempfile
+        base = "/dev/shm" if os.path.isdir("/dev/shm") and \
+            os.access("/dev/shm", os.W_OK) else None
+        self.path = pathlib.Path(tempfile.mkdtemp(
+            prefix=f"verif-{tag}-", dir=base))
+
+    def __enter__(self):
+        return self.path
+
+    def __exit__(self, *a):
+        import shutil
+        shutil.rmtree(self.path, ignore_errors=True)
+
+
+# --------------------------------------------------------------------------
 # violations and known findings
 # --------------------------------------------------------------------------
 def make_violation(prop, rule, site, features=None, message="", op_index=None):
@@ -175,6 +196,8 @@ class FaultPlan:
         self.fired = None
         self.phase = None
         self.fired_log = []
+        self.apply_calls = 0
+        self.apply_returned = 0
 
     def arm(self, fault):
         self.counts.clear()
